@@ -180,6 +180,42 @@ class MpGen(WorldGen):
             self.vtip = vid
         return tids
 
+    def make_mix(self, endorsed_vbk, last_known_btc, endorsed_alts, vparent=None, bparent=None):
+        """ONE VBK block that carries a VTB and ATVs (the kinds interleaved in one mempool relation)"""
+        vparent = vparent or self.vtip
+        bparent = bparent or self.btip
+        wid = "w%d" % self.nw
+        tids = ["t%d" % (self.nt + i) for i in range(len(endorsed_alts))]
+        reply = self.emit("mix %s %s %s %s:%s %s" % (vparent, bparent, last_known_btc, wid, endorsed_vbk,
+                                                     " ".join("%s:%s" % (t, e) for t, e in zip(tids, endorsed_alts))))
+        parts = reply.split(" ")
+        if parts[0] == "SKIP":
+            if len(parts) > 2 and parts[2].startswith("b") and parts[2] not in self.btc:
+                bid = parts[2]
+                self.nb = max(self.nb, int(bid[1:]) + 1)
+                self.btc[bid] = dict(parent=bparent, height=self.btc[bparent]["height"] + 1)
+                if self.btc[bid]["height"] > self.btc[self.btip]["height"]:
+                    self.btip = bid
+            raise Rejected(reply)
+        vid, bid = parts[0], parts[1]
+        if vid != "v%d" % self.nv or bid != "b%d" % self.nb:
+            raise Desync("mix: expected v%d b%d got %s" % (self.nv, self.nb, reply))
+        self.nw += 1
+        self.nt += len(tids)
+        self.nv += 1
+        self.nb += 1
+        self.vbk[vid] = dict(parent=vparent, height=self.vbk[vparent]["height"] + 1)
+        self.btc[bid] = dict(parent=bparent, height=self.btc[bparent]["height"] + 1)
+        self.vtb[wid] = dict(endorsed=endorsed_vbk, containing=vid, bop=bid, last=last_known_btc,
+                             bctx=self.bpath(last_known_btc, bid))
+        for t, e in zip(tids, endorsed_alts):
+            self.atv[t] = dict(endorsed=e, bop=vid, payout="040506")
+        if self.vbk[vid]["height"] > self.vbk[self.vtip]["height"]:
+            self.vtip = vid
+        if self.btc[bid]["height"] > self.btc[self.btip]["height"]:
+            self.btip = bid
+        return wid, tids
+
     def altgen(self, inst="A"):
         """ALT block on the instance's tip carrying exactly the last generated PopData"""
         aid = "a%d" % self.na
@@ -377,6 +413,42 @@ class MpHistory(History):
                 ids = [a for a in sorted(g.alt, key=lambda a: int(a[1:])) if g.alt[a]["haspd"] and a != "a0"]
                 self.on("rmall", r.choice(ids[-4:]))
 
+    def mixed(self):
+        """a VBK context gap longer than a small per-block limit, ending in ONE VBK block that carries a VTB and
+        ATVs; everything (gap blocks, payloads) is submitted, so the limit cuts the context in front of a block whose
+        payloads of both kinds are candidates"""
+        g, r = self.g, self.r
+        for _ in range(r.range(1, 4)):
+            g.mine_vbk()
+        anc = []
+        c = g.vtip
+        while c is not None and len(anc) < 8:
+            anc.append(c)
+            c = g.vbk[c]["parent"]
+        es = [self.recent_alt() for _ in range(r.range(1, 2))]
+        if None in es:
+            return
+        w, ts = g.make_mix(r.choice(anc), "b0", es)
+        self.my_vtbs.append(w)
+        self.my_atvs += ts
+        self.stat("mixed_block")
+        known = g.alt[self.tip()]["kv"]
+        path = g.vpath(known, g.vtb[w]["containing"])
+        if r.chance(1, 3):
+            path = path[:-1]          # the carrying block itself is known only through its payloads
+        for v in path[:16]:
+            self.submit(v)
+        items = [w] + ts
+        r.shuffle(items)
+        for x in items:
+            self.submit(x)
+        if r.chance(1, 2):
+            self.g.emit("setlim maxvbk=%d maxvtb=%d maxatv=%d maxsize=5500000" % (
+                r.choice([1, 1, 2, 3]), r.choice([1, 2, 200]), r.choice([1, 2, 1000])))
+            self.stat("setlim")
+        if r.chance(3, 4):
+            self.gen(r.chance(*self.APPLY))
+
     # ---- tree changes
     def grow(self):
         """ALT block(s) through the World: honest bodies, context-heavy bodies (VBK tip far ahead), forks"""
@@ -446,6 +518,8 @@ class MpHistory(History):
             self.grow()
         elif name == "chain":
             self.chain()
+        elif name == "mixed":
+            self.mixed()
         elif name == "gen":
             self.gen(r.chance(*self.APPLY))
         elif name == "rmall":
@@ -470,14 +544,14 @@ class MpHistory(History):
                 r.choice([10, 80, 200, 600, 700, 1200, 2500, 5500000])))
             self.stat("setlim")
 
-    W = [("create", 18), ("submit", 18), ("context", 16), ("chain", 8), ("grow", 14), ("gen", 10), ("rmall", 4),
-         ("cleanup", 8), ("clear", 2), ("reload", 0), ("limits", 2)]
+    W = [("create", 16), ("submit", 16), ("context", 16), ("chain", 8), ("mixed", 4), ("grow", 14), ("gen", 10),
+         ("rmall", 4), ("cleanup", 8), ("clear", 2), ("reload", 0), ("limits", 2)]
     APPLY = (1, 2)
 
 
 class C12History(MpHistory):
-    W = [("create", 18), ("submit", 18), ("context", 16), ("chain", 8), ("grow", 8), ("gen", 20), ("rmall", 2),
-         ("cleanup", 3), ("clear", 1), ("reload", 2), ("limits", 4)]
+    W = [("create", 16), ("submit", 14), ("context", 14), ("chain", 8), ("mixed", 8), ("grow", 8), ("gen", 20),
+         ("rmall", 2), ("cleanup", 3), ("clear", 1), ("reload", 2), ("limits", 4)]
     APPLY = (4, 5)
 
 
